@@ -15,16 +15,16 @@ NOTES = {
  "C07": "P_C01 + P_C02 + P_C07 on two- and three-level machines (inner-first candidates, single consumption, cascades) model-checked with 5 calls and validated on traces.",
  "C08": "history restore as specified by EntryActive (policy x entering event x named regions) validated against traces of three-region submachines under the three policies entered by plain, explicit, fork and entry-point rows, all six configurations.",
  "C09": "explicit entry / fork / entry point / exit point procedures of the specification validated against traces (callback order, original event in substate entries, forwarded exit-point event processed within the same call).",
- "C10": "P_C10 (never no_transition for the completion event; completion dispatch is the machine's next dispatch) on the model and on traces of completion chains with pending queued/deferred events.",
- "C11": "P_C11 (a blocked call runs no behaviour, changes nothing, returns handled) on the model and traces of a three-region machine with terminate / single- and multi-event interrupt states.",
+ "C10": "P_C10 (never no_transition for the completion event; the completion event is the next thing the machine processes after a handled occurrence / after entering a state with completion rows - offered-and-swallowed while a terminate / interrupt state blocks the machine) on the model and on traces of completion chains with pending queued/deferred events, completion rows behind explicit entries and forks, and a blocked submachine with completion rows; known finding F8 (back: completion queued behind kept deferred events when the state is entered inside its submachine's entry) excused in exactly that pattern and re-confirmed by a probe.",
+ "C11": "P_C11 (a blocked call runs no behaviour, changes nothing, returns handled) on the model and traces of a three-region machine with terminate / single- and multi-event interrupt states and of a machine whose submachine (with completion rows) gets blocked while the enclosing machine goes on.",
  "C12": "throw directive enumerated at every callback ordinal (mc: every position of every edge within the bounds; traces: random positions); P_C12 (no pending exception at return, no machine of the active tree left in the processing state) plus line-by-line validation of exception_caught calls, policy-defined active state and continuation behaviour.",
  "C13": "the same specification with only the configuration constant changed must accept the traces of every configuration on the same scripts (back, back+fct, back11, mp11, mp11+fct, mp11+fpa); any configuration-specific divergence is a rejection.",
  "C14": "one corpus definition is generated in three front-ends - functor rows (Row/Internal, none, ActionSequence_, And_/Or_/Not_), member-function rows (row, a_row, g_row, _row, the irow and row2 families, guards written as C++ expressions) and a PlantUML string (arrows of 1-4 dashes, guard before or after the actions, internal '-event' rows, nested submachine) - on every back-end; all variants' traces must be behaviours of the same specification constant (callback order, atom-by-atom guard evaluation under C++ precedence for 16 expression shapes, action sequences). Tokenizer: spec/Puml.tla enumerates every line of the documented transition grammar within bounds (quick: ~100 000 lines) and a run-time harness checks that detail::parse_row / count_actions / parse_action / parse_stt / parse_inits / count_* return exactly the intended fields. eUML is not generated (see DESIGN.md).",
  "C15": "copy construction and copy assignment as API calls of the specification (instance j becomes instance i, queue closures keep the object they were bound to); P_C15 (a call invokes no behaviour of, and changes nothing in, another machine object) model-checked with two instances; traces with up to three live instances validated; the known finding F6 (back/back11 closures stay bound to the source) is reproduced by the model, excused only in that exact pattern and re-confirmed by a probe on every run.",
  "C20": "event classes of size 8..512, alignment 1..64, trivially copyable / non-trivial / not-nothrow-movable / self-referential carry a canary, a payload-derived checksum and count constructions and destructions; the specification requires, at every API return, no lifetime error, live objects = stored occurrences (>= for the lazily erased backmp11 pool) and zero live objects after the last machine is destroyed, over histories of submit / defer / dispatch / copy / assign / stop / destroy; P_C04 (exactly once) model-checked on the same machine. Auxiliary oracle for the 'no invalid memory access' clause: the same drivers and scripts under ASan+UBSan (thorough: also valgrind).",
  "C16": "save / load through Boost.Serialization (text and binary archives) as an API call of the specification: the loaded machine gets the active ids at every level (also of inactive submachines), the history memory, the processing flag and the entry-counter data of the states / front-ends that opt in, and empty queues; P_C16 and the ledger invariant P_C03 model-checked with a save/load at every reachable configuration; traces of nested machines under each history policy with save/load at random points and continuations on both machines validated (back, back+fct, back11).",
- "C17": "P_C17 (flag vector = exists a state of the active tree carrying the flag) on the model and flag values logged at every callback and return compared with the specification.",
- "C18": "Matches(trigger, dynamic type) with base-class chain and Kleene trigger; candidates by table position (P_C01 with this Matches); dynamic type and payload of the event seen by every behaviour compared on traces (back, mp11).",
+ "C17": "P_C17 (default / OR query = some state of the active tree carries the flag; AND query = the active state of every region of the queried machine carries it) on the model; both answers for every flag are logged at every callback and every return and compared with the specification, also under the non-default switch policies; known finding F15 (backmp11 AND query with an active submachine) excused in exactly that situation and re-confirmed by a probe.",
+ "C18": "Matches(trigger, dynamic type) with base-class chain, the built-in Kleene types and a user-declared Kleene type (is_kleene_event specialisation); candidates by table position (P_C01 with this Matches); dynamic type and payload of the event seen by every behaviour compared on traces, also after queueing and deferral (back, mp11); random definitions with base-class triggers.",
  "C19": "AfterPhase(policy, phase) determines the ids reported inside every behaviour; ids logged by each callback compared with the specification for the four policies on back, back+fct, back11, mp11 variants.",
 }
 LEVEL_NOTE = ("Trusted base: TLC 1.8, the PlusCal translation, gen/gen.py producing both the TLA+ constant and the C++ driver from one corpus file, "
